@@ -9,9 +9,9 @@ import datetime, math, functools, logging
 from collections import Counter
 import numpy as np
 from .. import proto
-from ..proto import enc, hexs, unhex
+from ..proto import enc, hexs, unhex, name_key
 from ..engine import Finding, Timeout
-from .c02 import guarded, enc_table, enc_dictable, dec_table, keq, cell, NAN, SNAN, XNAN
+from .c02 import guarded, enc_table, dec_table, keq, cell, NAN, SNAN, XNAN
 import pyg_base  # noqa: E402
 
 logging.getLogger('pyg').setLevel(logging.ERROR)
@@ -44,7 +44,13 @@ KEYS = [None, 0, 1, 2, 1.0, 2.0, 2.5, 'a', 'b', '', D(2020, 1, 1), D(2020, 1, 2,
 VALS = [None, 1, 2, 3, 0.5, 'p', 'q', D(2021, 5, 5)]
 
 
-def rand_table(rng, ncols=None, nan_ok=True, min_rows=0):
+# round k1: column KEYS that are not strings (what pivot makes of float / None / datetime y values, or dictable({1.5: [...]})) as listby /
+# groupby keys and as ordinary columns: on the wire and in the model such a key is NAMED U+0000 + its atom (proto.key_name), the runner
+# hands the implementation the real key (`by`, `grp` and the table alike).  Ints are left out (d[1] is a row: review v1, 0-D).
+COLKEYS = [1.5, 2.5, -0.25, None, D(2020, 1, 1), D(2021, 6, 30, 12)]
+
+
+def rand_table(rng, ncols=None, nan_ok=True, min_rows=0, keyed_ok=False):
     ncols = ncols or rng.choice([2, 2, 3, 3, 4])
     n = max(min_rows, rng.choice([0, 1, 2, 3, 4, 5, 6, 7, 8]))
     # one table in five has column names that are substrings of one another ('t' in 'ticker'): key / column selection by name must be exact
@@ -71,7 +77,22 @@ def rand_table(rng, ncols=None, nan_ok=True, min_rows=0):
         t.append((k, [rng.choice(pool) for _ in range(n)]))
     if rng.random() < 0.3:
         rng.shuffle(t)
+    if keyed_ok and rng.random() < 0.15:
+        ks = rng.sample(COLKEYS, min(len(t), rng.choice([1, 1, 2])))
+        idx = rng.sample(range(len(t)), len(ks))
+        for i, k in zip(idx, ks):
+            t[i] = (proto.key_name(k), t[i][1])
     return t
+
+
+def is_keyed(t):
+    return any(k[:1] == '\x00' for k, _ in t)
+
+
+def enc_dictable(d):
+    """a table of the implementation on the wire; column keys - also those of the SUB-TABLES that groupby stores as cells - go through key_name
+    (false alarm of round k1: the sub-tables were encoded with str(key), '1.5' for the float key 1.5)"""
+    return '(D' + ''.join(' (%s %s)' % (hexs(proto.key_name(k)), proto.enck(list(v))) for k, v in d.items()) + ')'
 
 
 def enc_names(xs):
@@ -131,12 +152,16 @@ def generate(rng, tier):
     for _ in range(n):
         r = rng.random()
         if r < 0.4:
-            t = rand_table(rng)
+            t = rand_table(rng, keyed_ok=True)
             by, kind = gen_by(rng, [k for k, _ in t])
+            if is_keyed(t):
+                kind = 'keyed-columns:' + kind + (':key-in-by' if any(b[:1] == '\x00' for b in by) else '')
             yield dict(tag='listby-' + kind, lines=['(group lu %s %s sp:%s)' % (enc_table(t), enc_names(by), rng.choice('sl'))])
         elif r < 0.75:
-            t = rand_table(rng)
+            t = rand_table(rng, keyed_ok=True)
             by, kind = gen_by(rng, [k for k, _ in t])
+            if is_keyed(t):
+                kind = 'keyed-columns:' + kind + (':key-in-by' if any(b[:1] == '\x00' for b in by) else '')
             names = [k for k, _ in t]
             r2 = rng.random()
             # the name of the group column: the default 'grp', or grp = a fresh name / a key column / another column of the table
@@ -173,13 +198,13 @@ def run_line(state, sx):
     op = sx[1]
     d = dec_table(sx[2])
     if op in ('lu', 'gu'):
-        by = [proto.dec_cell(a) for a in sx[3][1:]]
+        by = [name_key(proto.dec_cell(a)) for a in sx[3][1:]]
         star = len(sx) > 4 and sx[4] == 'sp:s'
         if op == 'lu':
             l = guarded(lambda: d.listby(*by) if star else d.listby(by))
             u = guarded(lambda: l.unlist())
         else:
-            kw = dict(grp=proto.dec_cell(sx[5])) if len(sx) > 5 else {}
+            kw = dict(grp=name_key(proto.dec_cell(sx[5]))) if len(sx) > 5 else {}
             l = guarded(lambda: d.groupby(*by, **kw) if star else d.groupby(by, **kw))
             u = guarded(lambda: l.ungroup(**kw))
         return 'ok (T %s %s %s)' % (enc_dictable(l), enc_dictable(u), enc_dictable(d))
